@@ -219,6 +219,16 @@ def main(argv):
     props = [a for a in argv if a.startswith("C")] or sorted(rules.MODULES)
     bad = 0
     for p in props:
+        from .framework import load_known_findings
+        from .run import _match_known
+
+        _, res0, _ = run_property(p, repo, "quick")
+        known = load_known_findings()
+        base = sorted((r.rule, r.construct) for r in res0 if (r.verdict == VIOLATION and _match_known(r, known) is None) or r.verdict == "UNDECIDED" or str(r.verdict).upper() == "UNDECIDED")
+        if base:
+            # twins and mutants are judged against the verdicts on the unchanged tree: say so loudly when those are not clean
+            print(f"{p}: BASELINE NOT CLEAN: {len(base)} violation(s) / undecided obligation(s) that are no known findings on the unchanged tree, e.g. {base[:2]}")
+            bad += 1
         r = sweep(p, repo, verbose=True)
         s = r["selftest"]
         print(f"{p}: mutants {s['mutants_killed']}/{s['mutants_generated']} killed, twins {s['twins_silent']}/{s['twins']} silent, seeded {len(s['seeded_caught'])}/{len(s['seeded_changes'])}, skipped {len(s['skipped'])}")
